@@ -21,7 +21,7 @@ CLAIMED = {
    technique="deterministic simulation: seeded search over listing/iteration/configuration-order schedules, simulated clock and environment for the real binary, Miri-seeded RandomState; byte-equality of reports across schedules of the same content",
    engine="simproc+simbin+simmiri"),
  "C14": dict(level="exploration", design="§6 C14",
-   text="Complete table check over every documented name (read from the repository's docs and sample toml at run time) x 6 casings (acceptance, casing-independence, distinctness, default membership, selectability of every default, junk rejection, name->detector behaviour signature), plus seeded simulated process runs through the real Opts::new (clap on a simulated argv, toml file in the simulated world) judged by a small reference model of the flag/file/default resolution and by the journal (unknown name => non-zero status before any write).",
+   text="Complete table check over every documented name (read from the repository's docs and sample toml at run time) x 6 casings (acceptance, casing-independence, distinctness, default membership, selectability of every default, junk rejection, name->detector behaviour signature), plus seeded simulated process runs through the real Opts::new (clap on a simulated argv, toml file in the simulated world) judged by a small reference model of the flag/file/default resolution, by the findings (as a set, equal to the direct per-file results of exactly the listed patterns over the selected directory) and by the journal (unknown name => non-zero status before any write).",
    note="Trusted base: table configuration name -> detector function; generated toml files always carry all four keys; runs whose selected directory does not exist are not judged; main()'s five lines are mirrored by the driver (simbin runs the real main).",
    technique="deterministic simulation of the process environment (argv, cwd, files present, exit status, effect ordering in the journal) against a reference model of option resolution; complete enumeration of the documented-name table",
    engine="simproc+simbin"),
